@@ -11,6 +11,7 @@ import (
 	"bytes"
 	"crypto/tls"
 	"encoding/json"
+	"errors"
 	"fmt"
 	"io"
 	"net"
@@ -39,6 +40,7 @@ type csCfg struct {
 	PerIP    bool `json:"perIP"`
 	Busy     bool `json:"busy"`
 	TLS      bool `json:"tls"`
+	NoNorm   bool `json:"nonorm"`
 }
 
 type csResp struct {
@@ -70,6 +72,18 @@ type csConn struct {
 	foreignIO []string
 	tcpAddr   bool // report an IPv4 TCP remote address (so that MaxConnsPerIP applies)
 	blocker   bool // the connection that keeps the server at its concurrency limit
+	pred      bool // a predecessor connection served by the same Server before the one under test
+	// failHandover: SetDeadline(zero time) - the call the server makes when it hands a hijacked
+	// connection over - fails
+	// (switched on by the handler of a "hijackfail" request)
+	failHandover atomic.Bool
+}
+
+func (c *csConn) SetDeadline(t time.Time) error {
+	if c.failHandover.Load() && t.IsZero() {
+		return errors.New("verif: deadline reset refused")
+	}
+	return c.Conn.SetDeadline(t)
 }
 
 func (c *csConn) RemoteAddr() net.Addr {
@@ -115,6 +129,7 @@ type csListener struct {
 	// the first accepted connection is the one that keeps the server busy (marked before the
 	// server can report any state for it)
 	firstIsBlocker bool
+	firstIsPred    bool
 	accepted       int
 }
 
@@ -127,6 +142,8 @@ func (l *csListener) Accept() (net.Conn, error) {
 	l.accepted++
 	if l.firstIsBlocker && l.accepted == 1 {
 		cc.blocker = true
+	} else if l.firstIsPred && l.accepted == 1 {
+		cc.pred = true
 	}
 	l.got <- cc
 	return cc, nil
@@ -147,6 +164,7 @@ type csObs struct {
 	hijErr       string // error (other than EOF) the hijack handler got while reading
 	hijReturned  atomic.Bool
 	problems     []string
+	predStates   []string // ConnState sequence of the predecessor connection (if any)
 	inconclusive bool     // a server timeout fired before the client had written all its batches
 	stateConn    net.Conn // connection value of the first ConnState callback
 	connIdentity []string // callbacks that came with another connection value
@@ -160,14 +178,43 @@ func (o *csObs) addLog(s string) {
 	o.mu.Unlock()
 }
 
-func csReqBytes(r csReq, idx int) []byte {
+// csHdrName spells a header field name: canonically, or (server with
+// DisableHeaderNamesNormalizing) in another case chosen by the request's position.
+func csHdrName(name string, nonorm bool, idx int) string {
+	if !nonorm {
+		return name
+	}
+	switch idx % 3 {
+	case 0:
+		return strings.ToLower(name)
+	case 1:
+		return strings.ToUpper(name)
+	}
+	b := []byte(strings.ToLower(name))
+	for i := 0; i < len(b); i += 2 {
+		if b[i] >= 'a' && b[i] <= 'z' {
+			b[i] -= 'a' - 'A'
+		}
+	}
+	return string(b)
+}
+
+func csReqBytes(r csReq, idx int) []byte { return csReqBytesCfg(r, idx, false) }
+
+func csReqBytesCfg(r csReq, idx int, nonorm bool) []byte {
 	var b bytes.Buffer
+	// C10 obliges the server to honour a request's `close` whatever the spelling of the field
+	// name; it does not oblige it to grant an HTTP/1.0 keep-alive (closing is always allowed).
+	// fasthttp looks `keep-alive` up by exact name, so with DisableHeaderNamesNormalizing an
+	// HTTP/1.0 `connection: keep-alive` is answered with close: not a C10 violation, hence
+	// HTTP/1.0 requests keep the canonical spelling (DESIGN.md section 9.3).
+	nonorm = nonorm && r.Ver == "1.1"
 	if r.Kind == "unread" || r.Kind == "bigunread" || r.Kind == "hijackbody" {
 		// POST whose (streamed) body the handler does not read
 		n := map[string]int{"unread": 12 << 10, "bigunread": 320 << 10, "hijackbody": 12 << 10}[r.Kind]
 		fmt.Fprintf(&b, "POST /r%d HTTP/%s\r\nHost: example.com\r\nContent-Length: %d\r\n", idx, r.Ver, n)
 		if r.Conn != "none" {
-			fmt.Fprintf(&b, "Connection: %s\r\n", r.Conn)
+			fmt.Fprintf(&b, "%s: %s\r\n", csHdrName("Connection", nonorm, idx), r.Conn)
 		}
 		b.WriteString("\r\n")
 		b.Write(bytes.Repeat([]byte("u"), n))
@@ -175,7 +222,7 @@ func csReqBytes(r csReq, idx int) []byte {
 	}
 	fmt.Fprintf(&b, "GET /r%d HTTP/%s\r\nHost: example.com\r\n", idx, r.Ver)
 	if r.Conn != "none" {
-		fmt.Fprintf(&b, "Connection: %s\r\n", r.Conn)
+		fmt.Fprintf(&b, "%s: %s\r\n", csHdrName("Connection", nonorm, idx), r.Conn)
 	}
 	if r.Kind == "bad" {
 		b.WriteString("Broken : header\r\n") // whitespace before the colon: must be rejected
@@ -233,21 +280,28 @@ func csRunScaled(b *csBeh, scale int) *csObs {
 		}
 	}()
 	s := &Server{
-		DisableKeepalive:   b.Cfg.Dk,
-		MaxRequestsPerConn: b.Cfg.MaxReqs,
-		ReduceMemoryUsage:  b.Cfg.Rmu,
-		KeepHijackedConns:  b.Cfg.KeepHij,
-		Logger:             csNopLogger{},
-		MaxConnsPerIP:      map[bool]int{false: 0, true: 2}[b.Cfg.PerIP],
-		Concurrency:        map[bool]int{false: 0, true: 1}[b.Cfg.Busy],
-		StreamRequestBody:  csHasKind(b, "unread", "bigunread", "hijackbody"),
-		ReadTimeout:        csTimeout(b) * time.Duration(scale),
-		IdleTimeout:        csTimeout(b) * time.Duration(scale),
+		DisableKeepalive:              b.Cfg.Dk,
+		MaxRequestsPerConn:            b.Cfg.MaxReqs,
+		DisableHeaderNamesNormalizing: b.Cfg.NoNorm,
+		ReduceMemoryUsage:             b.Cfg.Rmu,
+		KeepHijackedConns:             b.Cfg.KeepHij,
+		Logger:                        csNopLogger{},
+		MaxConnsPerIP:                 map[bool]int{false: 0, true: 2}[b.Cfg.PerIP],
+		Concurrency:                   map[bool]int{false: 0, true: 1}[b.Cfg.Busy],
+		StreamRequestBody:             csHasKind(b, "unread", "bigunread", "hijackbody"),
+		ReadTimeout:                   csTimeout(b) * time.Duration(scale),
+		IdleTimeout:                   csTimeout(b) * time.Duration(scale),
 		ConnState: func(c net.Conn, st ConnState) {
 			if _, ok := c.(*csDisturbConn); ok {
 				return // unrelated traffic generated by csDisturb / the connection that keeps the server busy
 			}
 			if cc, ok := c.(*csConn); ok && cc.blocker {
+				return
+			}
+			if cc, ok := c.(*csConn); ok && cc.pred {
+				o.mu.Lock()
+				o.predStates = append(o.predStates, st.String())
+				o.mu.Unlock()
 				return
 			}
 			o.mu.Lock()
@@ -276,6 +330,14 @@ func csRunScaled(b *csBeh, scale int) *csObs {
 		if string(ctx.Path()) == "/disturb" {
 			return
 		}
+		if string(ctx.Path()) == "/pred" {
+			ctx.SetConnectionClose()
+			return
+		}
+		if string(ctx.Path()) == "/predhijack" {
+			ctx.Hijack(func(c net.Conn) { c.Write([]byte("PRED\n")); c.Close() }) //nolint:errcheck
+			return
+		}
 		if string(ctx.Path()) == "/block" {
 			close(blockerIn)
 			<-blockerGo // occupies the only concurrency slot until the scenario is over
@@ -299,6 +361,18 @@ func csRunScaled(b *csBeh, scale int) *csObs {
 		if r.Kind == "timeout" {
 			ctx.TimeoutError("verif timeout") // the serve loop continues with a fresh ctx
 			return
+		}
+		if r.Kind == "hijackfail" {
+			// the connection refuses the deadline reset of the hand-over: the hijack handler must
+			// never be started, the server closes the connection
+			if sc := srvConn.Load(); sc != nil {
+				sc.failHandover.Store(true)
+			}
+			ctx.Hijack(func(c net.Conn) {
+				o.mu.Lock()
+				o.problems = append(o.problems, "the hijack handler was started although the hand-over failed")
+				o.mu.Unlock()
+			})
 		}
 		if r.Kind == "hijack" || r.Kind == "hijacknr" || r.Kind == "hijackbody" || r.Kind == "hijackdl" {
 			if r.Kind == "hijacknr" {
@@ -342,7 +416,9 @@ func csRunScaled(b *csBeh, scale int) *csObs {
 	var ln *fasthttputil.InmemoryListener
 	if b.Cfg.ViaServe {
 		ln = fasthttputil.NewInmemoryListener()
-		wl := &csListener{Listener: ln, got: make(chan *csConn, 1), tcpAddr: b.Cfg.PerIP, firstIsBlocker: b.Cfg.Busy}
+		pred := csPredecessor(b)
+		wl := &csListener{Listener: ln, got: make(chan *csConn, 1), tcpAddr: b.Cfg.PerIP, firstIsBlocker: b.Cfg.Busy,
+			firstIsPred: pred != ""}
 		serveDone = make(chan struct{})
 		var srvLn net.Listener = wl
 		if b.Cfg.TLS {
@@ -363,6 +439,14 @@ func csRunScaled(b *csBeh, scale int) *csObs {
 			case <-blockerIn:
 			case <-time.After(10 * time.Second):
 				o.problems = append(o.problems, "infra: the blocking request never reached its handler")
+				return o
+			}
+		}
+		if pred != "" {
+			// The same Server (and, workers being reused last-in-first-out, the same worker) first
+			// serves another connection to its end: nothing of it may show on the connection under test.
+			if perr := csRunPredecessor(ln, wl, o, pred); perr != "" {
+				o.problems = append(o.problems, perr)
 				return o
 			}
 		}
@@ -439,7 +523,7 @@ outer:
 		var buf []byte
 		for _, r := range bt {
 			idx++
-			buf = append(buf, csReqBytes(r, idx)...)
+			buf = append(buf, csReqBytesCfg(r, idx, b.Cfg.NoNorm)...)
 		}
 		o.addLog(fmt.Sprintf("w%d", k+1))
 		if _, err := cli.Write(buf); err != nil {
@@ -599,6 +683,59 @@ outer:
 
 type csDisturbConn struct{ net.Conn }
 
+// csPredecessor chooses, from the behaviour itself (stable across runs), whether the Server first
+// serves another connection: "" (none), "plain" or "hijack". Only for plain listeners (the busy
+// and TLS set-ups have their own first connection / handshake).
+func csPredecessor(b *csBeh) string {
+	if !b.Cfg.ViaServe || b.Cfg.Busy || b.Cfg.TLS || b.Cfg.PerIP {
+		return ""
+	}
+	h := len(b.Batches)*7 + b.Nreq*3 + len(b.States)
+	for _, bt := range b.Batches {
+		for _, r := range bt {
+			h = h*31 + len(r.Kind) + len(r.Conn)
+		}
+	}
+	return []string{"", "plain", "hijack"}[h%3]
+}
+
+// csRunPredecessor serves one complete connection ("plain": one request answered with
+// Connection: close; "hijack": one hijacking request whose handler returns at once) and waits
+// until the server is done with it. Returns "" or an infrastructure/predecessor problem.
+func csRunPredecessor(ln *fasthttputil.InmemoryListener, wl *csListener, o *csObs, kind string) string {
+	c, err := ln.Dial()
+	if err != nil {
+		return "infra: dial (predecessor) " + err.Error()
+	}
+	defer c.Close()
+	<-wl.got
+	path := map[string]string{"plain": "/pred", "hijack": "/predhijack"}[kind]
+	c.Write([]byte("GET " + path + " HTTP/1.1\r\nHost: x\r\n\r\n")) //nolint:errcheck
+	c.SetReadDeadline(time.Now().Add(15 * time.Second))             //nolint:errcheck
+	if _, err := io.ReadAll(c); err != nil {                        // the server closes both kinds of connection
+		return "infra: predecessor connection not finished within 15s: " + err.Error()
+	}
+	want := map[string]string{"plain": "closed", "hijack": "hijacked"}[kind]
+	dl := time.Now().Add(15 * time.Second)
+	for {
+		o.mu.Lock()
+		st := append([]string(nil), o.predStates...)
+		o.mu.Unlock()
+		if n := len(st); n > 0 && (st[n-1] == "closed" || st[n-1] == "hijacked") {
+			// (a hijack is skipped, as documented, when the response carries Connection: close,
+			// e.g. under DisableKeepalive: the connection is then closed)
+			if st[0] != "new" || (st[n-1] != want && kind == "plain") {
+				return fmt.Sprintf("predecessor connection (%s): ConnState sequence %v", kind, st)
+			}
+			return ""
+		}
+		if time.Now().After(dl) {
+			return fmt.Sprintf("infra: predecessor connection (%s) reached no terminal state within 15s: %v", kind, st)
+		}
+		time.Sleep(200 * time.Microsecond)
+	}
+}
+
 func csHasKind(b *csBeh, kinds ...string) bool {
 	for _, bt := range b.Batches {
 		for _, r := range bt {
@@ -684,7 +821,11 @@ type csNopLogger struct{}
 func (csNopLogger) Printf(string, ...any) {}
 
 func csCfgKey(c csCfg) string {
-	return fmt.Sprintf("dk=%v maxReqs=%d rmu=%v serve=%v keepHij=%v perIP=%v busy=%v tls=%v", c.Dk, c.MaxReqs, c.Rmu, c.ViaServe, c.KeepHij, c.PerIP, c.Busy, c.TLS)
+	s := fmt.Sprintf("dk=%v maxReqs=%d rmu=%v serve=%v keepHij=%v perIP=%v busy=%v tls=%v", c.Dk, c.MaxReqs, c.Rmu, c.ViaServe, c.KeepHij, c.PerIP, c.Busy, c.TLS)
+	if c.NoNorm {
+		s += " nonorm=true"
+	}
+	return s
 }
 
 func csReqKey(r csReq) string {
